@@ -112,11 +112,51 @@ def run(prog: Program, rep, thorough: bool) -> None:
     else:
         rep.ok('C15.R3', f'{tdm.path}:{names[-1][2].lineno}', '_TrajFlagNames agrees with the flag values')
     zf = prog.func(C.M_TD, 'HitResult.zeros')
-    ztxt = [norm(n) for n in ast.walk(zf.node) if isinstance(n, ast.BinOp) and isinstance(n.op, ast.BitAnd)]
-    if any(t in ('row.flag & TrajFlag.ZERO', 'TrajFlag.ZERO & row.flag') for t in ztxt):
-        rep.ok('C15.R3', zf.where, 'HitResult.zeros selects rows with flag & ZERO')
+    # by evaluation on a finite family of cards: rows carrying every combination of the flag bits, in two orders
+    hrc = prog.cls(C.M_TD, 'HitResult')
+    all_bits = [0]
+    for v in bits.values():
+        all_bits += [x | v for x in all_bits]
+    families = [sorted(set(all_bits)), sorted(set(all_bits), reverse=True), [flags['RANGE'], flags['MACH'], flags['RANGE'] | flags['MACH']]]
+    z_bad, z_read = None, 0
+    for fam in families:
+        evz = Evaluator(prog, hooks={'call:HitResult.__check_extra__': lambda *a_: NONE})
+        evz.unroll = True
+        stz = State()
+        rows = [C.mk_row(evz, stz, prog, f'r{k}_', {'flag': Scalar(fl), '$k': Scalar(k)}) for k, fl in enumerate(fam)]
+        hr = evz.new_inst(stz, hrc, {'trajectory': evz.new_list(stz, rows), 'extra': Const(True), 'shot': SymObj('shot')})
+        try:
+            tree_z, _ = evz.run_func(zf, {zf.positional[0]: hr}, stz)
+        except Undecided:
+            z_read = None
+            break
+        want = [k for k, fl in enumerate(fam) if fl & flags['ZERO']]
+        for _p, lf in leaves(tree_z):
+            if any(t.kind == 'opaque' or t.rf is not None for t, _pol in _p):
+                z_read = None
+                break
+            if not want:
+                if lf.kind != 'raise':
+                    z_bad = f'a card without zero crossings (flags {fam}) does not raise'
+                continue
+            its = evz.items(lf.state, lf.value) if lf.kind == 'return' and lf.value is not None else None
+            got = [int(lf.state.heap[i_.oid]['$k'].rf.const_value()) for i_ in its] if its is not None and all(
+                isinstance(i_, Inst) and '$k' in lf.state.heap[i_.oid] for i_ in its) else None
+            if got != want:
+                z_bad = f'rows flagged {fam}: zeros() returns rows {got}, the rows with a ZERO_UP / ZERO_DOWN bit are {want}'
+        if z_read is None:
+            break
+        z_read += 1
+    if z_bad:
+        rep.fail('C15.R3', tdm.path, zf.node.lineno, zf.qualname, 'zeros', z_bad)
+    elif z_read:
+        rep.ok('C15.R3', zf.where, f'HitResult.zeros selects exactly the rows with a ZERO bit, in order ({z_read} cards of every flag combination)')
     else:
-        rep.fail('C15.R3', tdm.path, zf.node.lineno, zf.qualname, 'zeros', f'zeros() filters on {ztxt}, expected flag & TrajFlag.ZERO')
+        ztxt = [norm(n) for n in ast.walk(zf.node) if isinstance(n, ast.BinOp) and isinstance(n.op, ast.BitAnd)]
+        if any(t in ('row.flag & TrajFlag.ZERO', 'TrajFlag.ZERO & row.flag') for t in ztxt):
+            rep.ok('C15.R3', zf.where, 'HitResult.zeros selects rows with flag & ZERO')
+        else:
+            raise AnalysisError(f'HitResult.zeros: neither evaluable on the finite family nor of the `row.flag & TrajFlag.ZERO` form ({ztxt})')
 
     # ---- R1: zero crossing transition table ------------------------------------------------------
     czc = prog.func(C.M_TC, '_TrajectoryDataFilter.check_zero_crossing')
